@@ -72,6 +72,10 @@ def is_new_helper(f, idx):
         return True
     if "%s/%d" % (uq, len(f.get("params", []))) in known_arities():
         return False
+    if any("(lambda at" in (p.get("t") or "") for p in f.get("params", [])):
+        # an unknown-arity overload that receives a closure runs its caller's code: the caller's flow graph is
+        # incomplete without it, whether or not the known overload still stands beside it
+        return True
     return bool(idx.get(uq))
 
 
@@ -191,6 +195,11 @@ def find_local_objects(unit, fd, records):
                     if ini.get("k") == "CXXConstructExpr" and ini.get("callee") and ini["callee"].get("did") in unit.raw_by_did \
                             and unit.raw_by_did[ini["callee"]["did"]].get("blocks"):
                         cands[d["d"]] = {"cls": d["rt"], "name": d.get("n", "obj"), "ctor_call": ini["i"], "rec": new_recs[d["rt"]]}
+                    elif ini.get("k") == "InitListExpr" and len(ini.get("c", [])) == len(new_recs[d["rt"]].get("fields", [])) \
+                            and not new_recs[d["rt"]].get("bases"):
+                        # aggregate initialisation: the semantic form lists one initialiser per field, defaults included
+                        cands[d["d"]] = {"cls": d["rt"], "name": d.get("n", "obj"), "agg_init": ini["i"], "decl_stmt": n["i"],
+                                         "rec": new_recs[d["rt"]]}
     if not cands:
         return {}
     allowed = set()
@@ -202,9 +211,52 @@ def find_local_objects(unit, fd, records):
                 if t is not None and t.get("blocks"):
                     allowed.add(o["i"])
     for n in nodes:
+        # a direct read or write of a field (`obj.count`)
+        if n.get("k") == "MemberExpr" and n.get("mk") == "Field" and n.get("c") and not n.get("arrow"):
+            o = nodes[_strip_idx(nodes, n["c"][0])]
+            if o.get("k") == "DeclRefExpr" and o.get("d") in cands:
+                allowed.add(o["i"])
+    for n in nodes:
         if n.get("k") == "DeclRefExpr" and n.get("d") in cands and n["i"] not in allowed:
             cands.pop(n["d"], None)         # escapes (address taken, copied, passed on): left alone
     return cands
+
+
+def _scalarise_fields(fd, obj, info):
+    """Direct field accesses of a scalar-replaced object become reads/writes of its pseudo locals; an aggregate
+    initialiser becomes their declarations (a reference field is an alias of its initialiser)."""
+    nodes = fd["nodes"]
+    for n in nodes:
+        if n.get("k") == "MemberExpr" and n.get("mk") == "Field" and n.get("c") and not n.get("arrow"):
+            o = nodes[_strip_idx(nodes, n["c"][0])]
+            if o.get("k") == "DeclRefExpr" and o.get("d") == obj and not o.get("this_of"):
+                fld = n.get("m")
+                for k_ in ("m", "md", "mk", "arrow", "mc"):
+                    n.pop(k_, None)
+                n.update({"k": "DeclRefExpr", "c": [], "d": _pseudo(fd, obj, fld), "n": "%s.%s" % (info["name"], fld), "dk": "Var",
+                          "local": True, "lv": True, "field_of": obj})
+    if info.get("agg_init") is None:
+        return
+    ds = nodes[info["decl_stmt"]]
+    il = nodes[info["agg_init"]]
+    binds = []
+    for fl, init in zip(info["rec"].get("fields", []), il.get("c", [])):
+        pid = _pseudo(fd, obj, fl["n"])
+        if nodes[init].get("k") == "CXXDefaultInitExpr" and nodes[init].get("c"):
+            init = nodes[init]["c"][0]
+        ft = fl.get("t", "")
+        if ft.rstrip().endswith("&"):
+            nid = len(nodes)
+            nodes.append({"i": nid, "k": "ParamBind", "synthetic": True, "l": ds.get("l", ""), "d": pid,
+                          "n": "%s.%s" % (info["name"], fl["n"]), "t": ft, "init": init, "c": []})
+            binds.append(nid)
+        else:
+            ds["decls"].append({"d": pid, "n": "%s.%s" % (info["name"], fl["n"]), "t": ft, "init": init})
+    for b in fd["blocks"]:
+        if ds["i"] in b["elems"]:
+            k = b["elems"].index(ds["i"])
+            b["elems"][k + 1:k + 1] = binds
+            break
 
 
 _pseudo_next = [1_900_000_000]
@@ -391,6 +443,10 @@ def inline_unit(unit_json):
             continue
         fd["_objs"] = find_local_objects(u, fd, unit_json.get("records", []))
         for obj, info in list(fd["_objs"].items()):
+            _scalarise_fields(fd, obj, info)
+            if info.get("agg_init") is not None:
+                obj_classes.add(info["cls"])
+                continue
             # the constructor first: its initialisers declare the pseudo locals
             where = None
             for b in fd["blocks"]:
